@@ -29,8 +29,11 @@ func init() {
 			pageDedup(r)
 			iteratorPartitionAdvance(r)
 			c12MatchIsRegexp(r)
+			c12ResumeRestartsNextTable(r)
+			c12ScanAnswersForItsCopy(r)
 			kvLookupCoversAllTables(r)
 			kvLookupVisitsEveryTable(r)
+			engineBuiltFromEffectiveConfig(r, "engine-built-from-effective-config")
 		},
 	})
 }
